@@ -11,9 +11,9 @@ package contextualizers
 //@ func (*genericContextualizer).calculateCacheKey
 //@   props C11
 //@   callsites Write 3
-//@   assert at call Write#1: callarg1 == ehash.ret0[ehash.n - 1]
-//@   assert at call Write#2: len(callarg1) == 8
-//@   assert at call Write#3: callarg1 == shash.ret0[shash.n - 1]
+//@   assert at call Write#1@3df63b65.1: callarg1 == ehash.ret0[ehash.n - 1]
+//@   assert at call Write#2@b9953e06.1: len(callarg1) == 8
+//@   assert at call Write#3@95927b66.1: callarg1 == shash.ret0[shash.n - 1]
 //@   nomaprange Write
 //@   ensures shanew.n > old(shanew.n) && ehash.n == old(ehash.n) + 1 && shash.n == old(shash.n) + 1 && shash.arg0[old(shash.n)] == sub
 //@   ensures (exists k int :: old(hw.n) <= k && k < hw.n && hw.arg0[k] == shanew.ret0[old(shanew.n)] && hw.arg1[k] == ehash.ret0[old(ehash.n)])
